@@ -558,7 +558,7 @@ def run_case(case):
             forb_h = [v for v in class_ok if v not in solset_h]
             hnames = [f["name"] for f in hrf]
             probes_h = []
-            selv = case["sel"]
+            selv = list(case.get("sel") or [0]) * 8
             # first choice: assignments that the same reference allowed on the previous holder call and that the blocks
             # forbid now (the elements' lists changed in between): a stale per-call expansion would still accept them
             pkey = (i, j, cjson(inline))
